@@ -19,7 +19,7 @@ for n in names:
     row = {}
     for p in claimed:
         r = sh('cd %s && ./vcheck %s' % (VERIF, p), env=env)
-        row[p] = {'exit': r.returncode, 'note': '; '.join(l[:160] for l in r.stdout.splitlines() if l.startswith(('VIOLATION', 'UNDECIDED')))[:400]}
+        row[p] = {'exit': r.returncode if (r.returncode != 1 or 'VIOLATION property=' in r.stdout) else 3, 'note': '; '.join(l[:160] for l in r.stdout.splitlines() if l.startswith(('VIOLATION', 'UNDECIDED')))[:400]}
     results[n] = row
     print('%s alarms=%s undecided=%s' % (n, [p for p, v in row.items() if v['exit'] == 1], [p for p, v in row.items() if v['exit'] == 2]), flush=True)
     json.dump(results, open(res_path, 'w'), indent=1)
